@@ -23,7 +23,7 @@ RULE = (
 ASSUMPTIONS = [
     'interleavings are at await granularity of the single-threaded event loop; ready callbacks run in asyncio FIFO order',
     'the reader task holds one event beyond the configured queue size (the one that tells it the queue is full): bound is capacity + 1',
-    'the fake server raises OSError from send() once the client disconnect has been delivered (what real servers do)',
+    'server variants: send() after the client left either raises OSError or is dropped silently (enumeration uses the silent variant so that the framework itself must tell the sender)',
     'liveness only as "nothing satisfiable is left waiting after the loop has been drained"',
 ]
 
@@ -56,7 +56,10 @@ async def perform(ws, op, script):
         if k == 'recv':
             return ('ok', await ws.receive_text())
         if k == 'send':
+            script.send_started_after_disc = any(e['type'] == 'websocket.disconnect' for e in script.server.pulled)
             await ws.send_text('s')
+            if script.send_started_after_disc:
+                return ('ok_after_disconnect', None)
             return ('ok', None)
         if k == 'close':
             await ws.close()
@@ -86,8 +89,9 @@ def run_case(case):
     ops = case['script']
     word = case['word']
     app = get_app(cap)
-    server = ServerSide(events)
+    server = ServerSide(events, raise_after_disconnect=bool(case.get('server_raises', False)))
     script = Script(ops, perform)
+    script.server = server
     scope = asgi_driver.build_scope('GET', PATH, type_='websocket', spec_version='2.3',
                                     extra={'vf.script': script, 'subprotocols': []})
     del scope['method']
@@ -187,6 +191,9 @@ def run_case(case):
             notes['cancelled'] = True
         if out[0] == 'exc' and out[1] != 'WebSocketDisconnected':
             raise Violation('undocumented_exception', '%r raised %s; %s' % (op, out[1], ctx()))
+        if out[0] == 'ok_after_disconnect':
+            raise Violation('sender_not_told', 'send_text() succeeded although the framework had already been handed the client disconnect '
+                            '(the loop was drained in between); %s' % ctx())
         if kind in ('recv', 'recv_cancel'):
             if out[0] == 'ok':
                 returned += 1
@@ -276,9 +283,10 @@ class ScheduleRandom(Suite):
 
     def strategy(self, tier):
         return st.builds(
-            lambda cap, k, disc, script, word: {'capacity': cap, 'k': k, 'disconnect': disc, 'script': script, 'word': ''.join(word)},
+            lambda cap, k, disc, script, word, sr: {'capacity': cap, 'k': k, 'disconnect': disc, 'script': script, 'word': ''.join(word),
+                                                    'server_raises': sr},
             st.sampled_from([0, 1, 1, 2, 3, 4]), st.integers(0, 7), st.sampled_from([None, 1000, 1001, 4000]),
-            st.lists(_op, min_size=1, max_size=9), st.lists(st.sampled_from('DA'), max_size=18))
+            st.lists(_op, min_size=1, max_size=9), st.lists(st.sampled_from('DA'), max_size=18), st.booleans())
 
     def run(self, case):
         return run_case(case)
